@@ -1106,7 +1106,15 @@ def hook_facts(facts):
         names_file = ld2 is not None and any(isinstance(c, ast.Call) and call_name(c) == "partial" and len(c.args) == 2
                                               and ast.unparse(c.args[0]) == "_optimized_cache_from_source" and ast.unparse(c.args[1]) == "self._typechecker.get_hash()"
                                               for c in ast.walk(ld2))
-        if emb and filled and md5 and gh_ok and names_file:
+        # the table keeps what it is given for the life of the process: a plain dict display on the class (strong
+        # references), and nothing in the file removes entries — definitions nested in functions look their decorator up
+        # every time the enclosing function runs
+        table_plain = any(isinstance(n, ast.Assign) and len(n.targets) == 1 and isinstance(n.targets[0], ast.Name) and n.targets[0].id == "lookup"
+                          and isinstance(n.value, ast.Dict) and not n.value.keys for n in tcc.body)
+        pruned = any((isinstance(n, ast.Delete) and any("lookup" in ast.unparse(t) for t in n.targets))
+                     or (isinstance(n, ast.Call) and isinstance(n.func, ast.Attribute) and n.func.attr in ("pop", "popitem", "clear") and ast.unparse(n.func.value).endswith("lookup"))
+                     for n in ast.walk(tree))
+        if emb and filled and md5 and gh_ok and names_file and table_plain and not pruned:
             h["keyChain"] = "md5-everywhere"
     fi = find_def(tree, "_JaxtypingFinder", "should_instrument")
     if fi is not None:
